@@ -211,7 +211,8 @@ def step (line : String) : String :=
     let tl := nat "tlim" 0
     let cfg : Cfg := { size := nat "size" 100, page := max 1 (min (nat "page" 100) 1000), slim := max 1 (min (nat "slim" 100) 1000),
                        tlim := if tl = 0 then 1000 else tl, flt := kv ws "flt" == some "1" }
-    let v0 : V := { cfg := cfg, recMode := (kv ws "rec").getD "none" }
+    -- with observers (obs=1) the channel already exists when the protocol client starts
+    let v0 : V := { cfg := cfg, recMode := (kv ws "rec").getD "none", fresh := !(kv ws "obs" == some "1") }
     let v := runTokens v0 (words toks)
     if v.bad then "bad-op " ++ joinWith " " v.out else joinWith " " v.out
   | _ => "bad-op"
